@@ -145,10 +145,16 @@ def cache_summary(b):
 def _invoke(fx, fn, arg):
     """arg is one argument, or a list of arguments = one call_batch over them"""
     if isinstance(arg, list):
-        return getattr(fx, fn).call_batch([{"x": a} for a in arg])
-    if fn.endswith("!ignore"):  # the caller is not interested in the value
-        return getattr(fx, fn.split("!")[0]).ignore_result()(arg)
-    return getattr(fx, fn)(arg)
+        return fx.fobj(fn).call_batch([{"x": a} for a in arg])
+    return _plainify(fx.fobj(fn)(arg))
+
+
+def _plainify(v):
+    from twosigma.memento.partition import Partition
+
+    if isinstance(v, Partition):
+        return {k: v.get(k) for k in sorted(v.list_keys())}
+    return v
 
 
 def _flat(calls):
@@ -238,13 +244,14 @@ def provenance(calls):
             for k in fx.closure(fn, arg):
                 if k not in seen:
                     seen.append(k)
-    qn = lambda f: getattr(fx, f).fn_reference().qualified_name  # noqa
+    qn = lambda f: fx.fobj(f).fn_reference().qualified_name  # noqa
     for fn, arg in seen:
-        mm = getattr(fx, fn).memento(arg)
+        mm = fx.fobj(fn).memento(arg)
         if mm is None:
             return ("no-memento", "no memento recorded for %s(%s)" % (fn, arg))
         got_inv = [(i.fn_reference.qualified_name, i.arg_hash) for i in mm.invocation_metadata.invocations]
-        want_inv = [(qn(c), getattr(fx, c).fn_reference().with_args(arg).arg_hash) for c in fx.CALLS[fn]]
+        mark = "@ctx" if "@ctx" in fn else ""
+        want_inv = [(qn(c), fx.fobj(c).fn_reference().with_args(arg, _memento_context_args=fx.CTX if mark else None).arg_hash) for c in fx.CALLS[fx.base(fn)]]
         got_dep = sorted(d.qualified_name for d in mm.function_dependencies)
         want_dep = sorted({qn(f) for f, _ in fx.closure(fn, arg)})
         short = lambda L: [a.split(":")[-1].split("#")[0] for a in L]  # noqa
@@ -253,6 +260,50 @@ def provenance(calls):
         if got_dep != want_dep:
             return ("dependencies-%s" % ("missing" if set(want_dep) - set(got_dep) else "extra"),
                     "dependencies of %s(%s): recorded %s, transitively invoked %s" % (fn, arg, short(got_dep), short(want_dep)))
+    return None
+
+
+def context_oracle(calls):
+    """Every call is stored under exactly the context arguments it was made (or inherited) with."""
+    from ..fixtures import c09fx as fx
+
+    for c in calls:
+        for fn0, arg in _flat(c):
+            for fn, a in fx.closure(fn0, arg):
+                f = getattr(fx, fx.base(fn))
+                with_ctx = f.with_context_args(fx.CTX).memento(a) is not None
+                without = f.memento(a) is not None
+                want_with = any((fx.base(fn) + "@ctx", a) in fx.closure(g, b) for cc in calls for g, b in _flat(cc))
+                want_without = any((fx.base(fn), a) in fx.closure(g, b) for cc in calls for g, b in _flat(cc))
+                if (with_ctx, without) != (want_with, want_without):
+                    return ("context-identity", "%s(%s): memento under the context arguments: %s (expected %s), without: %s (expected %s)"
+                            % (fx.base(fn), a, with_ctx, want_with, without, want_without))
+    return None
+
+
+def readback_oracle(scn):
+    """What was stored is right: a fresh backend on the same directory (cold cache) serves every call, correct and without running a body."""
+    from .. import audit
+    from ..fixtures import c09fx as fx
+
+    name, be, warm, calls = scn
+    if BACKENDS[be][0] != "fs":
+        return None
+    set_backend(make_backend(be, _root()))
+    audit.bodies_reset()
+    for c in calls:
+        for fn, arg in _flat(c):
+            want = fx.expected(fn, arg)
+            if isinstance(want, tuple) and want and want[0] == "raises":
+                continue
+            try:
+                got = _invoke(fx, fn, arg)
+            except Exception as e:
+                return ("read-back-raised", "after the threads finished, %s(%s) read from the store raised %r" % (fn, arg, e))
+            if got != want:
+                return ("read-back-value", "after the threads finished, %s(%s) read from the store gives %r, expected %r" % (fn, arg, got, want))
+    if audit.bodies():
+        return ("read-back-recomputed", "after the threads finished, calls ran bodies again: %s" % [b[0] for b in audit.bodies()])
     return None
 
 
@@ -304,18 +355,30 @@ def run_once(scn, prefix, opcodes=False, gran="full", prov=False):
         return s.trace, token, bad, s.npoints
     else:
         for i, c in enumerate(calls):
+            want = [fx.expected(fn, arg) if not isinstance(arg, list) else [fx.expected(fn, a) for a in arg] for fn, arg in c]
+            refusal = next((w for w in want if isinstance(w, tuple) and w and w[0] == "raises"), None)
+            if refusal is not None:  # (a thread with a call that must be refused makes only that call)
+                if s.exc[i] is None:
+                    bad = ("not-refused", "thread %d: %s returned %r instead of raising %s" % (i, c, s.ret[i], refusal[1]))
+                    break
+                if type(s.exc[i]).__name__ != refusal[1]:
+                    bad = ("escaped-error", "thread %d: %r escaped to the caller (expected %s)" % (i, s.exc[i], refusal[1]))
+                    break
+                continue
             if s.exc[i] is not None:
                 bad = ("escaped-error", "thread %d: %r escaped to the caller" % (i, s.exc[i]))
                 break
-            want = [fx.expected(fn, arg) if not isinstance(arg, list) else [fx.expected(fn, a) for a in arg] for fn, arg in c]
             if s.ret[i] != want:
                 bad = ("wrong-value", "thread %d got %r, expected %r" % (i, s.ret[i], want))
                 break
     if bad is None:
         distinct = {k for c in calls for fn, arg in _flat(c) for k in fx.closure(fn, arg)}
-        for fn, arg in sorted(distinct):
+        per = {}
+        for fn, arg in distinct:  # the same function and argument under other context arguments is another call
+            per[(fx.base(fn), arg)] = per.get((fx.base(fn), arg), 0) + 1
+        for (fn, arg), cnt in sorted(per.items()):
             n = sum(1 for bd in bodies if bd[0] == fn and bd[1] == arg)
-            want = 0 if warm != "cold" else 1
+            want = 0 if warm != "cold" else cnt
             if n != want:
                 bad = ("single-flight", "body of %s(%s) ran %d times, expected %d" % (fn, arg, n, want))
                 break
@@ -328,6 +391,10 @@ def run_once(scn, prefix, opcodes=False, gran="full", prov=False):
                    % (summ["resident"], summ["usage"], sequential_outcomes(scn)))
     if bad is None and prov:
         bad = provenance(calls)
+    if bad is None and prov == "ctx":
+        bad = context_oracle(calls)
+    if bad is None and prov == "readback":
+        bad = readback_oracle(scn)
     token = "%s|%s|%s|%s" % (name, [repr(r) for r in s.ret], len(bodies), (summ["resident"], summ["usage"]) if summ else None)
     return s.trace, token, bad, s.npoints
 
@@ -440,6 +507,39 @@ def run(ctx):
     ctx.states = ctx.evaluations
     ctx.sample({"scenario": scns[0][0], "default_schedule_choice_points": len(t1[0]), "forced_preemption_prefix_len": len(mid)})
     ctx.sample({"scenario": tasks[-1][0][0], "prefix": list(tasks[-1][1])[-5:], "prefix_len": len(tasks[-1][1])})
+
+
+def concurrent_part(ctx, scns, prov, what, bound=1, gran="full"):
+    """Used by the checks of other properties (C14, C16, C17): all schedules of the given two-thread scenarios up to the
+    preemption bound, with the extra oracle `prov`; violations are reported under the calling property with a
+    "concurrent|" prefix. Needs `preimport = c09.preimport` in the calling check module."""
+    from ..core import pmap_dynamic
+
+    tasks = [(scn, (), bound, {"cap": 150, "prov": prov, "gran": gran}) for scn in scns]
+    t1 = run_once(scns[0], (), prov=prov)
+    t2 = run_once(scns[0], (), prov=prov)
+    ctx.selfcheck("concurrent part: default schedule replays identically", t1[0] == t2[0] and t1[1] == t2[1])
+    if t1[2]:
+        ctx.violation("concurrent|%s|%s|preemptions=0" % (scns[0][0], t1[2][0]), t1[2][1], {"scenario": scns[0][0], "calls": scns[0][3], "choices": [], "prov": prov, "gran": "full",
+                                                                                             "scn": list(scns[0])})
+    res = pmap_dynamic(explore_subtree, tasks)
+    n = 0
+    for r in res:
+        n += r["evaluations"]
+        r["violations"] = [("concurrent|" + k, w, dict(a, scn=[x for x in next(s for s in scns if s[0] == a["scenario"])])) for k, w, a in r["violations"]]
+    ctx.merge(res)
+    ctx.states += n
+    ctx.extra["concurrent"] = {"scenarios": [s[0] for s in scns], "schedules_executed": n, "preemption_bound": bound, "granularity": gran}
+    ctx.rule += " Concurrent part: %s; every schedule of two threads up to %d preemption(s) under the controlled scheduler of C09." % (what, bound)
+
+
+def replay_concurrent(prop, art):
+    a = art["artefact"]
+    scn = tuple(a["scn"][:3]) + ([[tuple(c) if not isinstance(c[1], list) else (c[0], c[1]) for c in th] for th in a["scn"][3]],)
+    trace, token, bad, npoints = run_once(scn, tuple(a["choices"]), a.get("opcodes", False), a.get("gran", "full"), a.get("prov", False))
+    print("observation:", token)
+    print("REPLAY property=%s result=%s" % (prop, bad))
+    return 1 if bad else 0
 
 
 def replay(ctx, art):
